@@ -89,6 +89,11 @@ type JWorld struct {
 
 var jPaths = []string{"/sim/ws/main.journal", "/sim/ws/a.journal", "/sim/ws/b.journal", "/sim/ws/new.journal"}
 
+// comLine is a posting line that ends in commodity com (registered as an occurrence).
+func comLine(text, com string, occs ...Occ) GLine {
+	return line(text, append(occs, Occ{Kind: "commodity", Name: com, Start: len(text) - len(com), End: len(text)})...)
+}
+
 // fileURI is the file: URI of an absolute path, percent-encoded like editors do.
 func fileURI(p string) string {
 	segs := strings.Split(p, "/")
@@ -124,8 +129,8 @@ func (w *JWorld) GenJText(c *simrt.Chooser, doc *JDoc, v int, includes []string)
 	stampAcct := fmt.Sprintf("v:d%d:v%d", doc.No, v)
 	lines = append(lines,
 		line("2024-01-01 "+stampPayee, Occ{Kind: "payee", Name: stampPayee, Start: 11, End: 11 + len(stampPayee)}),
-		line(fmt.Sprintf("    %s    %d MRK", stampAcct, v+1), Occ{Kind: "account", Name: stampAcct, Start: 4, End: 4 + len(stampAcct)}),
-		line("    v:sink          0 MRK", Occ{Kind: "account", Name: "v:sink", Start: 4, End: 10}),
+		comLine(fmt.Sprintf("    %s    %d MRK", stampAcct, v+1), "MRK", Occ{Kind: "account", Name: stampAcct, Start: 4, End: 4 + len(stampAcct)}),
+		comLine("    v:sink          0 MRK", "MRK", Occ{Kind: "account", Name: "v:sink", Start: 4, End: 10}),
 		line(""))
 	if w.Agg {
 		// aggregation weights (DESIGN 4.3): document i posts 10^(i-1) W to agg:all exactly once
@@ -150,7 +155,7 @@ func (w *JWorld) GenJText(c *simrt.Chooser, doc *JDoc, v int, includes []string)
 	tplAcct := fmt.Sprintf("tp:d%d:v%d", doc.No, v)
 	lines = append(lines,
 		line("2024-02-01 "+tplPayee, Occ{Kind: "payee", Name: tplPayee, Start: 11, End: 11 + len(tplPayee)}),
-		line("    "+tplAcct+"    1 TPL", Occ{Kind: "account", Name: tplAcct, Start: 4, End: 4 + len(tplAcct)}),
+		comLine("    "+tplAcct+"    1 TPL", "TPL", Occ{Kind: "account", Name: tplAcct, Start: 4, End: 4 + len(tplAcct)}),
 		line("    tp:sink", Occ{Kind: "account", Name: "tp:sink", Start: 4, End: 11}),
 		line(""))
 	// a transaction being typed: header of the stamp payee followed by an empty
